@@ -908,8 +908,10 @@ def run(tier: str) -> int:
     ck.trusted = [
         "Lean 4.33.0 kernel; axioms of every theorem ⊆ {propext, Classical.choice, Quot.sound}",
         "models lean/Koreo/CelAst.lean, WorkflowPrep.lean hand-transcribed from structure_extractor.py and the "
-        "prepare modules; grammar, dispatch sets, raise sites and name patterns regenerated from the sources "
-        "(harness/extractors/CelTables.py) and proved equal to the model's",
+        "prepare modules; the grammar is regenerated from lark's compiled rules; the model is proved to agree with "
+        "fact tables regenerated by PROBING the real code (harness/extractors/CelTables.py + _cel_probes.py): "
+        "extract_argument_structure on small trees covering every node type at every position, prepare_workflow "
+        "on a fixed table of expressions (recorded dependencies / parent properties)",
         "celpy 0.3.0 / lark parse-tree shapes (validated by the parse-tree differential)",
         "Python re (the two patterns are modelled as prefix + takeWhile; differential on every key)",
         "the cache lookup of a referenced Logic is abstracted to missing / unhealthy / ready",
